@@ -23,9 +23,15 @@ TWEEZERS = {
         action.move(grid.shift(s, a + 1.0, b))
     action.move(s)
 """, ["a", "b", "n"]),
+    # a path that never moves: pick up in place (one waypoint, the tones never leave it)
+    "k2": ("(a: float, b: float)", """
+    g = grid.from_positions([a], [b])
+    action.set_loc(g)
+    action.turn_on([0], [0])
+""", ["a", "b"]),
 }
 
-TONES = {"k0": ("[0, 1]", "[0]"), "k1": ("[0, 1]", "[0]")}
+TONES = {"k0": ("[0, 1]", "[0]"), "k1": ("[0, 1]", "[0]"), "k2": ("[0]", "[0]")}
 
 
 @dataclass
@@ -151,7 +157,7 @@ class MG:
                       spec_consts=spec_consts)
         self.ncall = 0
         self.tags = set()
-        self.devs = [("f0", "k0", False), ("r0", "k0", True), ("f1", "k1", False)]
+        self.devs = [("f0", "k0", False), ("r0", "k0", True), ("f1", "k1", False), ("f2", "k2", False)]
         self.loopvars = []
 
     def call(self, in_auto=False):
